@@ -5,6 +5,12 @@
 //	new <basehex> <ones> <dl>   PrefixPool   (component v6prefix)
 //
 // The generator emits the kind named by the environment variable V6POOL_KIND (addr|prefix).
+//
+//	alloc d3 | release d3
+//	scribble d3      alias probe: Allocate(d3) exactly like `alloc` (same answer), after which the harness overwrites
+//	                 every byte of the value it was handed (the net.IP, or the *net.IPNet's IP and Mask) with 0xa5.  A
+//	                 caller owns what it is handed; if the pool's own state changes, the result was an alias of the
+//	                 pool's map entry / future free-list entry.  The model treats it as `alloc`.
 package main
 
 import (
@@ -88,8 +94,11 @@ var pfxBad = []geo{
 
 func randOp(r *rand.Rand, subs int) string {
 	d := fmt.Sprintf("d%d", 1+r.Intn(subs))
-	if r.Intn(100) < 58 {
+	switch x := r.Intn(100); {
+	case x < 50:
 		return "alloc " + d
+	case x < 60:
+		return "scribble " + d
 	}
 	return "release " + d
 }
@@ -168,6 +177,24 @@ func exhaustive(prefix bool, emit func([]string)) {
 		}
 		rec(nil, 6+gi) // depth 6 on the larger pool, depth 7 on the smaller
 	}
+	// the alias probe in every position: 2 clients x {alloc, scribble, release} to depth 6 on the smaller pool
+	g := gs[1]
+	var alpha []string
+	for s := 1; s <= 2; s++ {
+		alpha = append(alpha, fmt.Sprintf("alloc d%d", s), fmt.Sprintf("scribble d%d", s), fmt.Sprintf("release d%d", s))
+	}
+	var rec func(p []string, depth int)
+	rec = func(p []string, depth int) {
+		if depth == 0 {
+			seq := append([]string{g.newOp(prefix)}, p...)
+			emit(append(seq, tail(3)...))
+			return
+		}
+		for _, x := range alpha {
+			rec(append(p[:len(p):len(p)], x), depth-1)
+		}
+	}
+	rec(nil, 6)
 }
 
 type run struct {
@@ -227,22 +254,37 @@ func (r *run) Do(op string) string {
 	}
 	duid := "duid-" + f[1][1:]
 	switch {
-	case r.ap != nil && f[0] == "alloc":
+	case r.ap != nil && (f[0] == "alloc" || f[0] == "scribble"):
 		ip := r.ap.Allocate(duid)
 		if ip == nil {
 			return "exhausted"
 		}
-		return "ok " + flx.Hex16(ip)
+		obs := "ok " + flx.Hex16(ip)
+		if f[0] == "scribble" {
+			for i := range ip {
+				ip[i] = 0xa5
+			}
+		}
+		return obs
 	case r.ap != nil && f[0] == "release":
 		r.ap.Release(duid)
 		return "ok"
-	case r.pp != nil && f[0] == "alloc":
+	case r.pp != nil && (f[0] == "alloc" || f[0] == "scribble"):
 		n := r.pp.Allocate(duid)
 		if n == nil {
 			return "exhausted"
 		}
 		ones, _ := n.Mask.Size()
-		return fmt.Sprintf("ok %s/%d", new(big.Int).SetBytes(n.IP.To16()).Text(16), ones)
+		obs := fmt.Sprintf("ok %s/%d", new(big.Int).SetBytes(n.IP.To16()).Text(16), ones)
+		if f[0] == "scribble" {
+			for i := range n.IP {
+				n.IP[i] = 0xa5
+			}
+			for i := range n.Mask {
+				n.Mask[i] = 0xa5
+			}
+		}
+		return obs
 	case r.pp != nil && f[0] == "release":
 		r.pp.Release(duid)
 		return "ok"
